@@ -1,6 +1,7 @@
 # -*- coding: utf-8 -*-
 
 import json
+import re
 from typing import Iterable, Optional, Union
 
 from .._utils import classdispatch
@@ -222,7 +223,7 @@ class ASTPrinter:
         return (
             _block_string(value, self.indent)
             if node.block
-            else json.dumps(value)
+            else _quoted_string(value)
         )
 
     def print_list_value(self, node: _ast.ListValue) -> str:
@@ -526,6 +527,19 @@ def _block(iterator: Iterable[str], indent: str) -> str:
     if not arr:
         return ""
     return "{\n%s\n}" % _join(map(lambda s: _indent(s, indent), arr), "\n")
+
+
+_SURROGATES_RE = re.compile("[\ud800-\udfff]")
+
+
+# json.dumps' default ASCII output encodes characters outside of the BMP as
+# surrogate pairs, which GraphQL reads back as 2 separate characters: only
+# unpaired surrogates (which cannot be encoded) need escaping.
+def _quoted_string(value: str) -> str:
+    return _SURROGATES_RE.sub(
+        lambda match: "\\u%04x" % ord(match.group(0)),
+        json.dumps(value, ensure_ascii=False),
+    )
 
 
 # Print a block string in the indented block form by adding a leading and
